@@ -53,6 +53,16 @@ def gen_case(rng, params, idx):
     for _ in range(rng.randint(5, 40)):
         c = rng.choice(base) if rng.random() < 0.6 else cg.call(rng)
         hist.append(c)
+    if flavour == "dep" and rng.random() < 0.7:
+        # class predicates inside value-dependent combinations, and calls during which a user predicate fails once
+        # (a transient fault): the same call later must still equal the call on a fresh function
+        for m in rng.sample(spec["methods"], min(2, len(spec["methods"]))):
+            p0 = m["pos"][rng.randrange(len(m["pos"]))]
+            p0["t"] = rng.choice([["U", ["L", 0], ["CC", "isk"]], ["U", ["CC", "nobase"], ["D", "int", "even"]],
+                                  ["I", ["CC", "isk"], ["D", "object", "truthy"]], ["U", ["L", 1, 2], ["CC", "hasfly"]]])
+        for k in rng.sample(range(len(hist)), min(6, len(hist))):
+            hist[k] = dict(hist[k], fault=rng.randint(1, 2))
+        spec["transient_faults"] = True
     spec["history"] = hist
     spec["flavour"] = flavour
     # the function is sometimes a variant, a mixin combination or a method with self (caches behind __get__)
@@ -90,6 +100,14 @@ def check_case(spec, res):
     seen_direct, seen_nested = set(), set()
     failed_before = False
     for i, call in enumerate(spec["history"]):
+        if call.get("fault"):
+            # the k-th consultation of a user predicate during this call raises (once): whatever this call does, the
+            # later calls must not be affected
+            env.predlog.fault_at, env.predlog.fault_count = call["fault"], 0
+            H.call(call)
+            env.predlog.fault_at = None
+            res.count("calls_with_transient_predicate_fault")
+            continue
         twin = Program(spec, env=env, tag="c04T")
         a = H.call(call)
         b = twin.call(call)
